@@ -58,7 +58,7 @@ pub fn gate_spec() -> (RunSpec, Vec<Budget>) {
     let mut work: Vec<InstSpec> = Vec::new();
     for kind in KINDS {
         for (i, (dim, field)) in [(s2, Field::Complex), (d2, Field::Real)].into_iter().enumerate() {
-            let payload = PAYLOADS[(kind.idx() + i) % 4];
+            let payload = PAYLOADS[(kind.idx() + i) % PAYLOADS.len()];
             work.push(inst(kind, dim, field, complete(), FaultPlan::Permanent(1), Drive::CollectVec, payload));
             work.push(inst(kind, dim, field, complete(), FaultPlan::Transient(3), Drive::ByRefCollect, payload));
             work.push(inst(kind, dim, field, complete(), FaultPlan::Burst(2, 3), Drive::Fold, payload));
